@@ -84,6 +84,13 @@ def scale_shapes():
         # label (cloning, serialising or normalising both sides) is only quadratic when both grow (informed round 10)
         ('header-long-and-many-text-labels', 'Header', lambda n: H(5, n + 1) + H(3, 10 * n) + b'x' * (10 * n) + b'\x00' + b''.join(t5(i) + b'\x00' for i in range(n))),
         ('key-long-and-many-text-labels', 'CoseKey', lambda n: H(5, n + 2) + b'\x01\x04' + H(3, 10 * n) + b'x' * (10 * n) + b'\x00' + b''.join(t5(i) + b'\x00' for i in range(n))),
+        # … and one long *value* of a typed field before many entries (informed round 11: the content-type checks re-run for every later
+        # entry once label 3 has been seen)
+        ('header-long-content-type-and-many-labels', 'Header', lambda n: H(5, n + 1) + b'\x03' + H(3, 10 * n + 2) + b'a/' + b'b' * (10 * n) + b''.join(i4(i) + b'\x00' for i in range(n))),
+        ('header-long-key-id-and-many-labels', 'Header', lambda n: H(5, n + 1) + b'\x04' + H(2, 10 * n) + b'k' * (10 * n) + b''.join(i4(i) + b'\x00' for i in range(n))),
+        ('header-long-crit-and-many-labels', 'Header', lambda n: H(5, n + 1) + b'\x02' + H(4, n) + b''.join(t5(i) for i in range(n)) + b''.join(i4(i) + b'\x00' for i in range(n))),
+        ('key-long-key-id-and-many-params', 'CoseKey', lambda n: H(5, n + 2) + b'\x01\x04\x02' + H(2, 10 * n) + b'k' * (10 * n) + b''.join(i4(i) + b'\x00' for i in range(n))),
+        ('claims-long-issuer-and-many-names', 'ClaimsSet', lambda n: H(5, n + 1) + b'\x01' + H(3, 10 * n) + b'x' * (10 * n) + b''.join(t5(i) + b'\x00' for i in range(n))),
         ('claims-long-and-many-text-names', 'ClaimsSet', lambda n: H(5, n + 1) + H(3, 10 * n) + b'x' * (10 * n) + b'\x00' + b''.join(t5(i) + b'\x00' for i in range(n))),
     ]
 
@@ -297,6 +304,13 @@ class C02(Prop):
                 sgf = '(sig %s %s b)' % (self.ph_form(p2), E)
                 for adder in ('add_created_signature %s %s echo' % (sgf, aad), 'add_detached_signature %s %s %s echo' % (sgf, pl, aad), 'try_add_created_signature %s %s (k b01)' % (sgf, aad), 'try_add_detached_signature %s %s %s (k b01)' % (sgf, pl, aad)):
                     ops.append(mk('build CoseSignBuilder (protected %s) (payload %s) (%s)' % (E, pl, adder), planted=p2.hex(), k='build-keep'))
+                # … and to every plain adder, at every builder that has one, alone and beside a second element (informed round 11: the
+                # adder for nested recipients cleared original_data)
+                rcf = '(rcp %s %s b03 (rcps))' % (self.ph_form(p2), E); rcn = '(rcp %s %s b04 (rcps %s))' % (self.ph_form(prot_bytes()), E, rcf)
+                for bld, add in (('CoseRecipientBuilder', '(add_recipient %s)' % rcf), ('CoseEncryptBuilder', '(add_recipient %s)' % rcf), ('CoseMacBuilder', '(add_recipient %s)' % rcf), ('CoseRecipientBuilder', '(add_recipient %s)' % rcn),
+                                 ('CoseEncryptBuilder', '(add_recipient %s)' % rcn), ('CoseSignBuilder', '(add_signature %s)' % sgf), ('HeaderBuilder', '(add_counter_signature %s)' % sgf),
+                                 ('CoseRecipientBuilder', '(add_recipient (rcp (ph - %s) %s b (rcps))) (add_recipient %s)' % (E, E, rcf)), ('CoseSignBuilder', '(add_signature (sig (ph - %s) %s b)) (add_signature %s)' % (E, E, sgf))):
+                    ops.append(mk('build %s %s' % (bld, add), planted=p2.hex(), k='build-keep', plain=True))
             elif c < 0.93:
                 # stored bytes at every nesting level down to the deepest permitted one (16): each protected byte string on the way holds
                 # a map the crate would not emit itself, the innermost signature holds `p`; everything outside protected byte strings is
@@ -365,7 +379,7 @@ class C02(Prop):
         if k == 'build-keep':
             if impl.startswith('ok') and '(ph b%s ' % pl not in impl: return 'a creating adder did not keep the stored protected bytes of the signature it was given'
             want = (refcbor.head(2, len(bytes.fromhex(pl))) + bytes.fromhex(pl)).hex()
-            if impl.startswith('ok') and '(calls' in impl and want not in impl.split('(calls', 1)[1]: return 'the signer was not handed the stored protected bytes'
+            if impl.startswith('ok') and '(calls' in impl and not o['meta'].get('plain') and want not in impl.split('(calls', 1)[1]: return 'the signer was not handed the stored protected bytes'
             return None
         if k in ('struct', 'verify', 'decrypt'):
             want = (refcbor.head(2, len(bytes.fromhex(pl))) + bytes.fromhex(pl)).hex()
@@ -383,7 +397,13 @@ def spec_struct(ctx, slots):
     out = refcbor.head(4, 1 + len(slots)) + refcbor.head(3, len(ctx)) + ctx
     for s in slots: out += refcbor.head(2, len(s)) + s
     return out
+# external data and payloads that are themselves the encoding of a header, a claims set, a key, a key set, a message or a to-be-signed
+# structure, in a layout the crate would not emit (labels out of order, indefinite lengths, non-shortest heads, wide floats): opaque
+# bytes all the same (informed round 11: an AAD that parses as a header / a payload that parses as a claims set re-serialised)
+STRUCT_BYTES = [bytes.fromhex(x) for x in NONCANON_PH + ['a2074101016161', 'bf016161ff', 'a104fa3fc00000', 'a10118' + '07', 'a203260102', '81a203260102', 'a201040482' + '0201', '8343a10126a04100', 'd28443a10126a0f640',
+                                                         '846a5369676e61747572653143a101264043616263', '83f6f6f6', '8218' + '8040', '840183f6f6f683f6f6f682188040', 'a10101', 'a0', '80', '8440a0f640']]
 def lenbytes(r, big_p=0.05):
+    if r.random() < 0.12: return r.choice(STRUCT_BYTES)
     n = r.choice(LENS) if r.random() < big_p else r.choice([0, 1, 2, 5, 23, 24])
     return bytes(r.randrange(256) for _ in range(n)) if n < 300 else bytes([r.randrange(256)]) * n
 
